@@ -77,6 +77,9 @@ mod shared;
 mod state;
 pub mod subscriber;
 mod unique;
+#[cfg(feature = "__verif")]
+#[doc(hidden)]
+pub mod verif_hooks;
 
 #[cfg(feature = "async-lock")]
 #[doc(inline)]
